@@ -95,12 +95,18 @@ TagsSayArea(tags) ==
   ELSE \E k \in DOMAIN AreaTable : AreaPasses(k, TagVal(tags, k))
 WayIsArea(nrefs, closed, tags) == nrefs > 3 /\ closed /\ TagsSayArea(tags)
 
-\* hasInterestingTags(tags, ignore); ign = << >> stands for a nil ignore map.
-\* (Go's ignore[k] == v with k absent and v = "" is not distinguished: no empty tag values in the input space.)
-Interesting(tags, ign) ==
+\* "has an interesting tag" (statement; tag.go): a tag whose key is not one of the uninteresting keys.
+\* A tag with an empty value is still a tag.
+HasInterestingTag(tags) == \E i \in DOMAIN tags : tags[i][1] \notin Unint
+\* hasInterestingTags(tags, nil)
+InterestingNil(tags) == HasInterestingTag(tags)
+\* hasInterestingTags(tags, ignore) with a non-nil ignore map `ign` (a tag list with unique keys): a tag is
+\* passed over when ignore[k] == "true" or ignore[k] == v; Go's lookup of an absent key yields "", so a tag
+\* with an EMPTY value whose key is absent from the map is passed over too (transcribed as the code has it).
+InterestingBut(tags, ign) ==
   \E i \in DOMAIN tags :
      /\ tags[i][1] \notin Unint
-     /\ ~(HasKey(ign, tags[i][1]) /\ (TagVal(ign, tags[i][1]) = "true" \/ TagVal(ign, tags[i][1]) = tags[i][2]))
+     /\ ~(TagVal(ign, tags[i][1]) = "true" \/ TagVal(ign, tags[i][1]) = tags[i][2])
 
 HasNode(ds, id) == \E i \in DOMAIN ds.nodes : ds.nodes[i].id = id
 HasWay(ds, id)  == \E i \in DOMAIN ds.ways  : ds.ways[i].id = id
@@ -204,7 +210,7 @@ RouteResult(ds, O, r) ==
       pres    == SelectSeq(wm, LAMBDA m : HasWay(ds, m.ref))
       tainted == \/ \E j \in DOMAIN wm : ~HasWay(ds, wm[j].ref)
                  \/ \E j \in DOMAIN pres : Tainted(ds, WayOf(ds, pres[j].ref))
-      skip    == {pres[j].ref : j \in {j \in DOMAIN pres : ~Interesting(WayOf(ds, pres[j].ref).tags, << >>)}}
+      skip    == {pres[j].ref : j \in {j \in DOMAIN pres : ~InterestingNil(WayOf(ds, pres[j].ref).tags)}}
       all     == [j \in DOMAIN pres |-> LS(ds, WayOf(ds, pres[j].ref))]
       lines   == SelectSeq(all, LAMBDA l : Len(l) > 0)
       secs    == Join(lines)
@@ -229,7 +235,7 @@ AddToMP(mp, ring, iip) ==
             IN [mp EXCEPT ![i] = Append(@, ring)]
   ELSE Append(mp, << << >>, ring >>)
 \* `used` = the ways already rendered under their own identity by earlier relations; `fixed` selects
-\* the variant of the Model: FALSE = the pinned code (such a way is rendered again, see KF_SharedOldStyleOuter),
+\* the variant of the Model: FALSE = the tree before commit 626c4a8 (such a way is rendered again, see KF_SharedOldStyleOuter),
 \* TRUE = what it is meant to do (fixes/C17-shared-outer.diff: a later relation keeps its own identity).
 PolyResult(ds, O, r, used, fixed) ==
   LET iip     == "IIP" \in O
@@ -239,7 +245,8 @@ PolyResult(ds, O, r, used, fixed) ==
       tainted == \/ \E j \in DOMAIN wm : ~HasWay(ds, wm[j].ref)
                  \/ \E j \in DOMAIN pres : Tainted(ds, WayOf(ds, pres[j].ref))
       skip0   == {pres[j].ref : j \in {j \in DOMAIN pres :
-                     ~Interesting(WayOf(ds, pres[j].ref).tags, IF pres[j].role = "outer" THEN r.tags ELSE << >>)}}
+                     IF pres[j].role = "outer" THEN ~InterestingBut(WayOf(ds, pres[j].ref).tags, r.tags)
+                                               ELSE ~InterestingNil(WayOf(ds, pres[j].ref).tags)}}
       nonempty == SelectSeq(pres, LAMBDA m : Len(LS(ds, WayOf(ds, m.ref))) > 0)
       om      == SelectSeq(nonempty, LAMBDA m : m.role = "outer")
       im      == SelectSeq(nonempty, LAMBDA m : m.role = "inner")
@@ -254,7 +261,7 @@ PolyResult(ds, O, r, used, fixed) ==
        IF Len(ring) < 4 \/ ring[1] # ring[Len(ring)] THEN [feat |-> << >>, skip |-> skip0, used |-> {}]
        ELSE LET poly == <<ring>> \o [k \in DOMAIN isecs |-> RingOf(isecs[k], -1)]
                 ow   == WayOf(ds, om[1].ref)
-                old  == ~Interesting(r.tags, << <<"type", "true">> >>)
+                old  == ~InterestingBut(r.tags, << <<"type", "true">> >>)
             IN IF old /\ ~(fixed /\ ow.id \in used)
                THEN [feat |-> << Feat(ds, O, "way", ow, "Polygon", poly, ow.tags, tainted) >>, skip |-> skip0 \cup {ow.id}, used |-> {ow.id}]
                ELSE [feat |-> << Feat(ds, O, "relation", r, "Polygon", poly, r.tags, tainted) >>, skip |-> skip0, used |-> {}]
@@ -290,7 +297,7 @@ WayResult(ds, O, skip, w) ==
 
 \* ---- node pass, one node (convert.go:124-143, nodeToFeature)
 NodeResult(ds, O, n) ==
-  IF InSomeWay(ds, n.id) /\ ~IsMember(ds, "node", n.id) /\ ~Interesting(n.tags, << >>) THEN << >>
+  IF InSomeWay(ds, n.id) /\ ~IsMember(ds, "node", n.id) /\ ~InterestingNil(n.tags) THEN << >>
   ELSE IF n.xy = Zero /\ n.meta.version = 0 THEN << >>        \* "our definition of empty"
   ELSE << Feat(ds, O, "node", n, "Point", n.xy, n.tags, FALSE) >>
 
@@ -303,7 +310,7 @@ ConvV(ds, O, fixed) ==
   LET rp == RelPass(ds, O, fixed)
       wp == FoldLeft(LAMBDA acc, w : acc \o WayResult(ds, O, rp.skip, w), rp.feats, ds.ways)
   IN FoldLeft(LAMBDA acc, n : acc \o NodeResult(ds, O, n), wp, ds.nodes)
-Conv(ds, O) == ConvV(ds, O, FALSE)          \* the pinned tree
+Conv(ds, O) == ConvV(ds, O, TRUE)           \* the tree as it is (with fix 626c4a8)
 
 (* ======================================================================= *)
 (* Judge: the statement, over a feature list F for data set ds, options O  *)
@@ -351,7 +358,7 @@ J_MetaMembership(ds, O, F) ==
 \* a relation member" - read as the exact mapping of the title: those located nodes get a point
 \* at their coordinates, and a node feature is a point of a node satisfying the condition.
 \* Silent on whether a node without a location that satisfies the condition is emitted.
-NodeCond(ds, n) == ~InSomeWay(ds, n.id) \/ Interesting(n.tags, << >>) \/ IsMember(ds, "node", n.id)
+NodeCond(ds, n) == ~InSomeWay(ds, n.id) \/ HasInterestingTag(n.tags) \/ IsMember(ds, "node", n.id)
 J_NodeRule(ds, F) ==
   /\ \A k \in DOMAIN ds.nodes : (ds.nodes[k].xy # Zero /\ NodeCond(ds, ds.nodes[k])) =>
         \E i \in DOMAIN F : F[i].t = "node" /\ F[i].id = ds.nodes[k].id
@@ -361,12 +368,17 @@ J_NodeRule(ds, F) ==
 \* "a line, or for area ways a closed correctly wound polygon, with the way's resolvable node
 \* coordinates in order".  Silent about ways that are members of multipolygon/boundary relations
 \* (osmtogeojson renders those as part of the relation, possibly under the way's identity) and
-\* about the presence of ways that are members of any rendered relation (skippable set).
+\* about the presence of route member ways that have no interesting tag (rendered as part of the
+\* route only).  A way with an interesting tag of its own that is not part of a polygon relation
+\* must have its feature - otherwise the element's tags appear nowhere in the output.
 InPolyRel(ds, wid)     == \E i \in DOMAIN ds.rels : IsPoly(ds.rels[i]) /\ WayMemberOf(ds.rels[i], wid)
-InRenderedRel(ds, wid) == \E i \in DOMAIN ds.rels : (IsPoly(ds.rels[i]) \/ IsRoute(ds.rels[i])) /\ WayMemberOf(ds.rels[i], wid)
+InRouteRel(ds, wid)    == \E i \in DOMAIN ds.rels : IsRoute(ds.rels[i]) /\ WayMemberOf(ds.rels[i], wid)
+InRenderedRel(ds, wid) == InPolyRel(ds, wid) \/ InRouteRel(ds, wid)
+WayFeatureDue(ds, w)   == /\ Len(LS(ds, w)) >= 2 /\ ~InPolyRel(ds, w.id)
+                          /\ (InRouteRel(ds, w.id) => HasInterestingTag(w.tags))
 CloseSeq(s) == IF Len(s) >= 1 /\ s[1] # s[Len(s)] THEN Append(s, s[1]) ELSE s
 J_WayGeometry(ds, F) ==
-  /\ \A k \in DOMAIN ds.ways : (~InRenderedRel(ds, ds.ways[k].id) /\ Len(LS(ds, ds.ways[k])) >= 2) =>
+  /\ \A k \in DOMAIN ds.ways : WayFeatureDue(ds, ds.ways[k]) =>
         \E i \in DOMAIN F : F[i].t = "way" /\ F[i].id = ds.ways[k].id
   /\ \A i \in DOMAIN F : (F[i].t = "way" /\ HasWay(ds, F[i].id) /\ ~InPolyRel(ds, F[i].id)) =>
         LET w == WayOf(ds, F[i].id)
@@ -430,14 +442,14 @@ J_Options(ds, R) ==
      /\ \A i \in DOMAIN R[{}] : IsPolyRelFeat(ds, R[{}][i]) =>
            \E j \in DOMAIN R[{"IIP"}] : R[{"IIP"}][j].t = "relation" /\ R[{"IIP"}][j].id = R[{}][i].id
 
-\* ---- known finding (genuine defect of the pinned tree, see notes/C17.md):
+\* ---- known finding (genuine defect of the originally pinned tree, fixed by 626c4a8, see notes/C17.md):
 \* two or more multipolygon/boundary relations without interesting tags of their own use the
 \* same way as their single outer ring; each is rendered under the way's identity, so the way
 \* gets several features.
 OldStyleOuterOf(ds, r) ==
   LET wm == SelectSeq(r.members, LAMBDA m : m.t = "way" /\ m.role \in {"inner", "outer"})
       om == SelectSeq(wm, LAMBDA m : m.role = "outer")
-  IN IF IsPoly(r) /\ Len(om) = 1 /\ HasWay(ds, om[1].ref) /\ ~Interesting(r.tags, << <<"type", "true">> >>)
+  IN IF IsPoly(r) /\ Len(om) = 1 /\ HasWay(ds, om[1].ref) /\ ~InterestingBut(r.tags, << <<"type", "true">> >>)
      THEN {om[1].ref} ELSE {}
 KF_SharedOldStyleOuter(ds) ==
   \E i, j \in DOMAIN ds.rels : i < j /\ OldStyleOuterOf(ds, ds.rels[i]) \cap OldStyleOuterOf(ds, ds.rels[j]) # {}
